@@ -136,7 +136,8 @@ func (d *Data) Encode() ([]byte, error) {
 	if err := utils.Compress(buf, compressed); err != nil {
 		return nil, err
 	}
-	return compressed.Bytes(), nil
+	// copy: the pooled buffer is reused as soon as this function returns
+	return bytes.Clone(compressed.Bytes()), nil
 }
 
 func (d *Data) Decode(data []byte) error {
